@@ -165,7 +165,8 @@ def sampler_uniform(E, samples):
     _judge_samples(E, subs, vals, wgts, ref, (2, 2), "uniform", total=4.0)
 
 
-@ob("C13", params=[dict(nz=1, z=1), dict(nz=2, z=1), dict(nz=1, z=2, _tier="thorough")], max_paths=40000,
+# (two zero samples: the rejection loop's draw outcomes exhaust the 40000-path budget -- not registered)
+@ob("C13", params=[dict(nz=1, z=1), dict(nz=2, z=1)], max_paths=40000,
     bounds="stratified / semi-stratified samplers on a 2x2 sparse tensor with 2 stored symbolic values; index and uniform draws symbolic")
 def sampler_stratified(E, nz, z):
     """stratified: nonzero samples are stored entries, zero samples are true zeros, weights total the entries represented; semi-stratified: inside, counts, weights"""
